@@ -15,7 +15,10 @@ import (
 	"verifharness/hxlib"
 )
 
-type exec struct{ c *container.Container }
+type exec struct {
+	c    *container.Container
+	kept *container.Container // most recently split-off container, read again later (kdump)
+}
 
 func errStr(err error) string {
 	switch {
@@ -44,6 +47,7 @@ func (e *exec) Do(line string) string {
 	}
 	if f[0] == "new" {
 		e.c = container.New(hexes(f[1:])...)
+		e.kept = nil
 		return "ok"
 	}
 	c := e.c
@@ -93,7 +97,8 @@ func (e *exec) Do(line string) string {
 		if err != nil {
 			return errStr(err)
 		}
-		return b(nc.CompileData())
+		e.kept = nc
+		return b(dumpOf(nc))
 	case "getmax":
 		return b(c.GetMax(atoi()))
 	case "wts":
@@ -111,7 +116,8 @@ func (e *exec) Do(line string) string {
 		if nc == nil {
 			return "nil"
 		}
-		return b(nc.CompileData())
+		e.kept = nc
+		return b(dumpOf(nc))
 	case "block":
 		d, err := c.GetNextBlock()
 		if err != nil {
@@ -123,7 +129,13 @@ func (e *exec) Do(line string) string {
 		if err != nil {
 			return errStr(err)
 		}
-		return b(nc.CompileData())
+		e.kept = nc
+		return b(dumpOf(nc))
+	case "kdump":
+		if e.kept == nil {
+			return "nil"
+		}
+		return b(dumpOf(e.kept))
 	case "n8", "n16", "n32", "n64":
 		var v uint64
 		var err error
@@ -166,6 +178,13 @@ func (e *exec) Do(line string) string {
 	return "ok"
 }
 
+// dumpOf reads a container without consuming or restructuring it.
+func dumpOf(c *container.Container) []byte {
+	var buf bytes.Buffer
+	_ = c.WriteAllTo(&buf)
+	return buf.Bytes()
+}
+
 // ---- monitor: a plain byte queue written independently in Go -------------------------------
 
 func uvar(q []byte, k int, limit uint64) (uint64, int, string) {
@@ -194,6 +213,8 @@ func uvar(q []byte, k int, limit uint64) (uint64, int, string) {
 
 func monitor(c hxlib.Case, outs []string) (vs []hxlib.Violation) {
 	var q []byte
+	var kept []byte
+	haveKept := false
 	started := false
 	add := func(i int, class, what string) {
 		f := strings.Fields(c.Lines[i])
@@ -225,6 +246,12 @@ func monitor(c hxlib.Case, outs []string) (vs []hxlib.Violation) {
 		case "new":
 			q = cat(f[1:])
 			started = true
+			haveKept = false
+		case "kdump":
+			want = "nil"
+			if haveKept {
+				want = hx(kept)
+			}
 		case "append":
 			q = append(q, hxlib.UnHex(f[1])...)
 		case "prepend":
@@ -265,6 +292,9 @@ func monitor(c hxlib.Case, outs []string) (vs []hxlib.Violation) {
 				want = hx(take(n))
 				q = q[n:]
 			}
+			if f[0] == "getcont" && strings.HasPrefix(want, "b ") {
+				kept, haveKept = hxlib.UnHex(strings.TrimPrefix(want, "b ")), true
+			}
 		case "getall":
 			want = hx(q)
 			q = nil
@@ -302,6 +332,7 @@ func monitor(c hxlib.Case, outs []string) (vs []hxlib.Violation) {
 				want = "nil"
 			} else {
 				want = hx(take(n))
+				kept, haveKept = take(n), true
 			}
 		case "n8", "n16", "n32", "n64":
 			k, lim := map[string]int{"n8": 2, "n16": 3, "n32": 5, "n64": 10}[f[0]], map[string]uint64{"n8": 255, "n16": 65535, "n32": math.MaxUint32, "n64": math.MaxUint64}[f[0]]
@@ -332,6 +363,9 @@ func monitor(c hxlib.Case, outs []string) (vs []hxlib.Violation) {
 				want = "err notenough"
 			} else {
 				want = hx(take(int(v)))
+				if f[0] == "blockcont" {
+					kept, haveKept = take(int(v)), true
+				}
 				q = q[v:]
 			}
 		case "holds":
@@ -407,6 +441,111 @@ func generate(r *hxlib.Run, emit func(hxlib.Case)) {
 	}
 	for _, c := range corpus {
 		emit(hxlib.Case{Lines: c, NonTrivial: true, Kind: "corpus"})
+	}
+	// containers with very many compartments, consumed piecewise (offset far beyond the small-case range,
+	// split-off containers read again after the parent was modified)
+	for i := 0; i < r.Budget(300, 6000); i++ {
+		k := 90 + rng.Intn(140)
+		parts := make([]string, k)
+		for j := range parts {
+			b := make([]byte, 1+rng.Intn(3))
+			rng.Read(b)
+			parts[j] = hxlib.Hex(b)
+		}
+		var lines []string
+		if rng.Intn(2) == 0 {
+			lines = append(lines, "new "+strings.Join(parts, " "))
+		} else {
+			lines = append(lines, "new")
+			for _, p := range parts {
+				lines = append(lines, "append "+p)
+			}
+		}
+		steps := 60 + rng.Intn(260)
+		for j := 0; j < steps; j++ {
+			switch rng.Intn(12) {
+			case 0:
+				lines = append(lines, "wts "+strconv.Itoa(1+rng.Intn(3)))
+			case 1:
+				lines = append(lines, "getmax "+strconv.Itoa(1+rng.Intn(3)))
+			case 2:
+				lines = append(lines, "n8")
+			case 3:
+				lines = append(lines, "getcont "+strconv.Itoa(1+rng.Intn(4)), "append "+slice(), "kdump")
+			case 4:
+				lines = append(lines, "append "+slice())
+			case 5:
+				lines = append(lines, "len", "kdump")
+			default:
+				lines = append(lines, "get "+strconv.Itoa(1+rng.Intn(3)))
+			}
+			if j%40 == 39 {
+				lines = append(lines, "len", "dump")
+			}
+		}
+		lines = append(lines, "len", "holds", "dump")
+		emit(hxlib.Case{Lines: lines, NonTrivial: true, Kind: "many-compartments"})
+	}
+	// split-off containers: split exactly the rest / a part, modify the parent, read the child again
+	for i := 0; i < r.Budget(1500, 60000); i++ {
+		lines := []string{strings.TrimSpace("new " + slices() + " " + slice())}
+		for j := 0; j < 1+rng.Intn(6); j++ {
+			switch rng.Intn(5) {
+			case 0:
+				lines = append(lines, "append "+slice())
+			case 1:
+				lines = append(lines, "prepend "+slice())
+			case 2:
+				lines = append(lines, "get "+strconv.Itoa(rng.Intn(6)))
+			case 3:
+				lines = append(lines, "appendblock "+slice())
+			default:
+				lines = append(lines, "wts "+strconv.Itoa(rng.Intn(9)))
+			}
+		}
+		// how much is held is learned from the implementation (generator may call it)
+		e := &exec{}
+		held := 0
+		for _, l := range lines {
+			e.Do(l)
+		}
+		if e.c != nil {
+			held = e.c.Length()
+		}
+		n := held
+		switch rng.Intn(4) {
+		case 0:
+			n = held / 2
+		case 1:
+			n = held - 1
+		}
+		split := "getcont " + strconv.Itoa(n)
+		if rng.Intn(4) == 0 {
+			split = "peekcont " + strconv.Itoa(n)
+		}
+		if rng.Intn(6) == 0 {
+			split = "blockcont"
+		}
+		lines = append(lines, split, "kdump")
+		for j := 0; j < 1+rng.Intn(5); j++ {
+			switch rng.Intn(6) {
+			case 0:
+				lines = append(lines, "append "+slice())
+			case 1:
+				lines = append(lines, "appendnum "+num())
+			case 2:
+				lines = append(lines, "appendblock "+slice())
+			case 3:
+				lines = append(lines, "prepend "+slice())
+			case 4:
+				lines = append(lines, "getall")
+			default:
+				lines = append(lines, "get "+strconv.Itoa(rng.Intn(5)))
+			}
+			lines = append(lines, "kdump")
+		}
+		lines = append(lines, "len", "dump", "kdump")
+		emit(hxlib.Case{Lines: lines, NonTrivial: true, Kind: "split-then-modify"})
 	}
 	N := r.Budget(20000, 1500000)
 	for i := 0; i < N; i++ {
@@ -535,7 +674,11 @@ func generate(r *hxlib.Run, emit func(hxlib.Case)) {
 				l = "n64"
 				consuming++
 			case 31:
-				l = "len"
+				if rng.Intn(2) == 0 {
+					l = "kdump"
+				} else {
+					l = "len"
+				}
 			case 32:
 				l = "holds"
 			default:
@@ -555,8 +698,8 @@ func generate(r *hxlib.Run, emit func(hxlib.Case)) {
 
 func main() {
 	hxlib.Main(&hxlib.Harness{
-		Prop: "C16",
-		Rule: "each case creates a container (empty / one slice / many slices incl. empty ones) and applies 1–60 (thorough: up to 400) random public method calls with slices of length 0, 1, 2–16, 200, numbers at all varint boundaries up to 2^64-1, requested lengths from {-5,-1,0,1,exact,exact±1,huge,MinInt}; Length/HoldsData/full dump after every 8th op and at the end. Non-trivial: at least one consuming op after at least one append and one prepend (so more than one compartment and the offset machinery are exercised); distinct by hash of the op lines.",
+		Prop:     "C16",
+		Rule:     "(also: containers with 90–230 compartments consumed piecewise; split-off containers read again after the parent was modified) each case creates a container (empty / one slice / many slices incl. empty ones) and applies 1–60 (thorough: up to 400) random public method calls with slices of length 0, 1, 2–16, 200, numbers at all varint boundaries up to 2^64-1, requested lengths from {-5,-1,0,1,exact,exact±1,huge,MinInt}; Length/HoldsData/full dump after every 8th op and at the end. Non-trivial: at least one consuming op after at least one append and one prepend (so more than one compartment and the offset machinery are exercised); distinct by hash of the op lines.",
 		Generate: generate,
 		NewExec:  func(*hxlib.Run) hxlib.Exec { return &exec{} },
 		Monitor:  monitor,
